@@ -1435,6 +1435,14 @@ class Evaluator:
             lo, hi, step = self._slice_term(node.slice, st)
             return ("slice", base, lo, hi, step)
         idx = self.eval(node.slice, st)
+        o = st.obj(base)
+        if o is not None and o.get("kind") == "list" and not o.get("sio") and is_const(idx) and isinstance(idx[1], int) \
+                and not any(isinstance(x, tuple) and x and x[0] in ("loopitem", "spread") for x in o["items"]) \
+                and not (-len(o["items"]) <= idx[1] < len(o["items"])) and not st.suffix.get(base):
+            # an index outside a list whose elements are all known: IndexError
+            st.effects.append(("crash", "IndexError", f"{norm(node)} on a list of {len(o['items'])} element(s)"))
+            st.env["__raise__"] = ("call", glob("IndexError"), (const("list index out of range"),), ())
+            return NONE
         return ("sub", base, idx)
 
     def _slice_term(self, sl: ast.Slice, st: State):
